@@ -72,8 +72,10 @@ func checkC03(r *Run) {
 
 // c03HeaderRead recognises the read of the length prefix and returns the call whose success guarantees the
 // four bytes were read, and the exact affine form of the wire length.
-//   (a) binary.Read(rd, LittleEndian, &x) with x uint32
-//   (b) io.ReadFull(rd, hdr[:]) over a 4-byte buffer, value binary.LittleEndian.Uint32(hdr[:])
+//
+//	(a) binary.Read(rd, LittleEndian, &x) with x uint32
+//	(b) io.ReadFull(rd, hdr[:]) over a 4-byte buffer, value binary.LittleEndian.Uint32(hdr[:])
+//
 // A single rd.Read into the header buffer is reported: it may return fewer than 4 bytes.
 func c03HeaderRead(r *Run, fa *FA, rm *ssa.Function, rdParam ssa.Value) (*ssa.Call, *Lin, string) {
 	for _, hdr := range findCalls(rm, "encoding/binary.Read") {
